@@ -318,7 +318,10 @@ func timeAfter(d time.Duration, eph bool) *Chan[time.Time] {
 	if Aborting() {
 		return c
 	}
-	tm := &timer{id: len(S.timers), deadline: S.Now + d, label: S.curName() + "/" + d.String()}
+	tm := &timer{id: len(S.timers), deadline: S.Now + d}
+	if S.KeepTrace {
+		tm.label = S.curName() + "/" + d.String()
+	}
 	tm.fire = func() {
 		if len(c.buf) < c.cap {
 			c.buf = append(c.buf, epoch.Add(S.Now))
